@@ -1,8 +1,9 @@
 /-
 Line-protocol driver for the C19 model (query pipeline).
 
-  new <node> <node> ...      stage tree in preorder, node = <S|A|Q|X|C><o|e|p|l|n><#children>
+  new <node> <node> ...      stage tree in preorder, node = <S|A|Q|Z|X|C><o|e|p|l|n><#children>
                              (S sync / A pooled / Q pooled, context cancelled while the task is queued /
+                             Z pooled, the pool is stopped while Submit is blocked on the full queue /
                              X pooled on a stopped pool / C pooled with a
                              cancelled context on a saturated pool — X and C: the pool rejects the task;
                              o ok / e error / p execution panics / l Plan() panics / n NextStages()
@@ -47,7 +48,7 @@ def parseNode (w : String) : Option (Run × Bool × Outcome × Nat) :=
   match w.toList with
   | a :: o :: k =>
     let run? : Option Run :=
-      if a = 'S' then some .inline else if a = 'A' || a = 'Q' then some .pooled
+      if a = 'S' then some .inline else if a = 'A' || a = 'Q' || a = 'Z' then some .pooled
       else if a = 'X' || a = 'C' then some .rejected else none
     let out? : Option (Bool × Outcome) :=
       if o = 'o' then some (false, .ok) else if o = 'e' then some (false, .error)
